@@ -25,6 +25,7 @@ func runC14(p *core.Prog, r *core.Report) {
 	c14R2(p, r)
 	c14R3(p, r)
 	c14R4(p, r)
+	c14R5(p, r)
 }
 
 // edgeOfCall returns the CFG edges on which the boolean result of a call satisfying pred is `val`.
@@ -391,5 +392,81 @@ func c14R4(p *core.Prog, r *core.Report) {
 	})
 	if n == 0 {
 		r.MissingAnchor(rule, "ManifestPut in the traversal")
+	}
+}
+
+// ---------------------------------------------------------------------------------------------
+// R5 an absent Content-Length is not a wrong length
+
+func c14R5(p *core.Prog, r *core.Report) {
+	const rule = "C14.R5"
+	r.Rule(rule, "existence answers are not rejected for a missing length: in the registry scheme and its HTTP layer a response's ContentLength (which is -1 when the header is absent, as is legal for HEAD) is compared with an expected size only behind a test that it is known (> 0, >= 0 or != -1); otherwise every blob the target already has looks absent and is transferred again", 1)
+	isCL := func(v ssa.Value) bool {
+		if cv, ok := v.(*ssa.Convert); ok {
+			v = cv.X
+		}
+		return fieldLoadOf(v, "net/http", "Response", "ContentLength")
+	}
+	n := 0
+	for _, rel := range []string{"scheme/reg", "internal/reghttp", "."} {
+		for _, fn := range pkgFuncs(p, rel) {
+			lab := labeler{}
+			for _, b := range fn.Blocks {
+				for _, in := range b.Instrs {
+					bo, ok := in.(*ssa.BinOp)
+					if !ok {
+						continue
+					}
+					switch bo.Op {
+					case token.EQL, token.NEQ, token.LSS, token.GTR, token.LEQ, token.GEQ:
+					default:
+						continue
+					}
+					var other ssa.Value
+					switch {
+					case isCL(bo.X):
+						other = bo.Y
+					case isCL(bo.Y):
+						other = bo.X
+					default:
+						continue
+					}
+					if _, isConst := other.(*ssa.Const); isConst {
+						continue // the "is it known" test itself
+					}
+					n++
+					label := lab.next("ContentLength compared with a size")
+					known := anyGuard(b, func(c ssa.Value, pol bool) bool {
+						g, ok := c.(*ssa.BinOp)
+						if !ok {
+							return false
+						}
+						k, isK := core.ConstInt(g.Y)
+						if !isCL(g.X) || !isK {
+							return false
+						}
+						switch {
+						case g.Op == token.GTR && k >= -1:
+							return pol
+						case g.Op == token.GEQ && k >= 0:
+							return pol
+						case g.Op == token.NEQ && k == -1:
+							return pol
+						case g.Op == token.EQL && k == -1:
+							return !pol
+						case g.Op == token.LSS && k <= 0:
+							return !pol
+						case g.Op == token.LEQ && k <= -1:
+							return !pol
+						}
+						return false
+					})
+					r.Check(known, rule, p.FuncName(fn), label, p.Pos(bo.Pos()), "the comparison is made only where the length is known; with -1 (no header) it would report a mismatch for content that is there")
+				}
+			}
+		}
+	}
+	if n == 0 {
+		r.Held(rule, "scheme/reg", "no response length is compared with an expected size", "", "nothing to guard")
 	}
 }
